@@ -662,6 +662,22 @@ def cmp_shapes(c, io, drv):
         ls = [py_len(sv(c[k])) for k in ("a", "d", "r", "dur")]
         if None not in ls and all(float(sv(c[k])) >= 0 for k in ("a", "d", "r")):      # negative times: no documented meaning
             want = ls[0] + ls[1] + ls[2] + max(0, ls[3] - ls[0] - ls[1] - ls[2])
+    if e == "attack_float":
+        # 0 -> 1 over int(a+.5) samples, 1 -> s over int(d+.5) samples, then the sustain itself
+        la, ld = py_len(sv(c["a"])), py_len(sv(c["d"]))
+        sa = c["s"]
+        if la is not None and ld is not None and io["end"] in ("fuel", "stop") and ("num" in sa or sa["strm"]):
+            s0 = float(sv(sa["num"])) if "num" in sa else fh(sa["strm"][0])
+            d = float(sv(c["d"]))
+            vals = [None if isinstance(b, str) else unbits(b) for b in io["out"]]
+            exp = [None] * la + [1.0 + i * ((s0 - 1.0) / d if d != 0 else 0.0) for i in range(ld)]
+            exp += ([s0] * n if "num" in sa else [fh(v) for v in sa["strm"][1:]])
+            exp = exp[:n]
+            ok = len(vals) == len(exp) and all(w is None or (v is not None and abs(v - w) <= 1e-9 * (1 + abs(w)))
+                                               for v, w in zip(vals, exp))
+            if not ok:
+                res.append(("spec", "attack float: %s/%s is not 0->1 over %d, 1->%r over %d samples, then the sustain" % (
+                    show(io["out"]), io["end"], la, s0, ld)))
     if want is not None:
         exp_n = min(want, n)
         e_end = "fuel" if want >= n else "stop"
